@@ -305,6 +305,14 @@ func (p *Program) typeOfModBase(fn *ssa.Function, e *CExpr) types.Type {
 		}
 	case "old":
 		return p.typeOfModBase(fn, e.X)
+	case "deref":
+		bt := p.typeOfModBase(fn, e.X)
+		if bt == nil {
+			return nil
+		}
+		if pt, ok := bt.Underlying().(*types.Pointer); ok {
+			return pt.Elem()
+		}
 	}
 	return nil
 }
